@@ -7,3 +7,4 @@ import Tibc.Expect.Packet
 #print axioms Tibc.C06.nft_refund_exact
 #print axioms Tibc.C06.recv_away_mints_voucher
 #print axioms Tibc.C06.nft_round_trip_restores
+#print axioms Tibc.C06.refund_although_delivered
